@@ -39,6 +39,7 @@ type Ctx struct {
 	siteMemo       map[*ssa.Function]ssa.CallInstruction
 	nilTestMemo    map[*ssa.Function]map[ssa.Value]int
 	cellOrd        map[*ssa.Alloc]int
+	nilTestAll     map[ssa.Value]int
 	anchorHint     *ssa.Function // the function a rule enumerated last (context for helpers shared by several callers)
 	inHint         bool
 	noImports      bool
